@@ -413,6 +413,10 @@ class eval_new_ctx(_ApiSpec):
         root signature (ONE-KEY), every key denotes the computation kept at its path."""
         inters = args[1] if isinstance(args[0], ObjVal) and args[0].cls == "FIU" else args[0]
         eng.event("analysis:all_store_paths")
+        # precondition of the ONE-KEY variant of all_store_paths: nothing in _eval_new_ctx (or in the analysis) establishes it
+        one_sig = z3.Bool("interaction_tree_keeps_each_path_with_one_signature")
+        self._asp_classes = {"call:all_store_paths:requires:one_signature_per_path": {"same_path_kept_with_two_signatures": z3.Not(one_sig)}}
+        eng.oblige("call:all_store_paths:requires:one_signature_per_path", one_sig, kind="pre", node=node)
         m = MapVal.fresh("store_paths", PATH, KEY, with_keys=True, ordered=True)
         light, heavy = m.axioms()
         for f in light:
@@ -444,6 +448,9 @@ class eval_new_ctx(_ApiSpec):
         if isinstance(recv, str) and name == "join":
             return Opaque("joined")
         return NotImplemented
+
+    def finding_classes(self, ctx):
+        return getattr(self, "_asp_classes", {})
 
     # ---------------------------------------------------------------------------------------------------
     def make_globals(self, eng):
